@@ -12,6 +12,7 @@ import rules_wt
 import rules_zero
 import rules_io
 import rules_lock
+import rules_mode
 import rules_name
 
 PROPS = {
@@ -79,6 +80,20 @@ PROPS = {
         "explanation": "R-REUSE: (a) every append path of allocate_sector / allocate_mini_sector / allocate_dir_entry is dominated by the 'nothing free' outcome of the free-list query (guard atoms); (b) every free feeds the list (free_sector => set_fat(FREE) + free_sectors.push on all Ok paths; likewise mini sectors; free_chain frees each visited sector); (c) validate rebuilds both lists from exactly the FREE cells. "
                        "R-CAP: the branch guarding each extension of the mini-stream chain and of the MiniFAT chain has the chain's physical length (Chain::len / num_sectors) in its condition, not only the logical length that shrinks on release.",
         "not_decided": "that file size is constant from the second repetition of any net-zero cycle (values of the free lists over histories); LIFO order; truncation of the file (the code has none)",
+    },
+    "C16": {
+        "rules": [rules_mode.run],
+        "explanation": "R-MODE over all is_strict() tests (19 call sites): S - the region of the CFG dominated by the strict edge of each mode test contains no store, no mutating call and no Ok return, only refusals of kind InvalidData; "
+                       "P/N - the region dominated by the permissive edge is either a listed normaliser that only pops/truncates its listed vector (DIFAT zero-stripping, FAT tail stripping, MiniFAT truncation) or a canonicalising assignment nested inside a documented deviation test; no refusal is made only in permissive mode. "
+                       "Deviation inventory: each of the 18 documented deviations is located (regexes over guard atoms) as a refusal with is_strict() on its path (or, for the zero-padded FAT, an unconditional refusal pre-empted by the permissive normaliser).",
+        "not_decided": "that the permissive view of a damaged file equals the undamaged file's content (values); deviations combined with foreign layouts",
+    },
+    "C17": {
+        "rules": [rules_follow.make("R-SETTER", "C17"), rules_entry.gstore, rules_api.errkind("C17")],
+        "explanation": "R-SETTER: every metadata setter reaches with_dir_entry_mut on its Ok path, which forwards the same id down to Directory::with_dir_entry_mut, which writes the same slot back (write_dir_entry(same id) -> seek(128*id) + dir_entries[id].write_to). "
+                       "R-GSTORE: streams never receive a CLSID or timestamps (every store to those fields is dominated by a test excluding ObjType::Stream). "
+                       "R-ERRKIND rows: CLSID on a stream is InvalidInput, setters on a missing path are NotFound.",
+        "not_decided": "exact values returned; 100 ns rounding direction; saturation limits; clock bracketing of a new storage's times (values)",
     },
     "C18": {
         "rules": [rules_det.short, rules_det.seekfirst, rules_det.nondet],
